@@ -21,3 +21,17 @@ package external
 //@   trusted
 //@   modifies nothing
 //@   ensures result2 == nil ==> inRangePL(result0, result1) && issued(tsOf(result0, result1))
+
+// Region lookups of PD (assumed): GetRegion answers the region that contains the key; GetPrevRegion answers the region
+// that ends at the key (the one holding the greatest key below it). Keys are abstract in the contracts that use these.
+//@ package github.com/tikv/pd/client
+
+//@ func (Client) GetRegion
+//@   trusted
+//@   modifies nothing
+//@   ensures result1 == nil && result0 != nil && result0.Meta != nil ==> result0.Meta.StartKey <= key && (result0.Meta.EndKey == "" || key < result0.Meta.EndKey)
+
+//@ func (Client) GetPrevRegion
+//@   trusted
+//@   modifies nothing
+//@   ensures result1 == nil && result0 != nil && result0.Meta != nil ==> result0.Meta.StartKey < key && result0.Meta.EndKey == key
